@@ -775,5 +775,60 @@ def run(chk, prog):
                       why10 or "NOTHING relates the two sizes, a longer source writes past the end of the destination"),
                       "iterator-write:%s:%s->%s" % (fq["qname"].replace("vfps::", ""), src_c, out_c))
     chk.floor("R10-iterator-range-writes", n10, 1)
+    # ---- R11: a member that selects an array element has a value from construction on ---------------------------------------------------------------------
+    # every scalar member that some member function uses inside a subscript is given a value by every constructor of the class that declares it:
+    # in the initialiser list (default member initialisers included), or by an assignment that lies on every path through the constructor body
+    from .. import flow as Fl11
+    SC11 = ("bool", "char", "signed char", "unsigned char", "short", "unsigned short", "int", "unsigned int", "long", "unsigned long", "long long", "unsigned long long")
+    idx_fields = {}
+    for fq in prog.functions.values():
+        cls_ = fq.get("class") or ""
+        if not cls_.startswith("vfps::") or not fq.get("body"):
+            continue
+        for x in A.walk(fq["body"]):
+            sub = None
+            if x.get("k") == "ArraySubscriptExpr":
+                sub = x["c"][1]
+            elif x.get("k") == "CXXOperatorCallExpr" and x.get("op") == "[]" and len(x.get("args", [])) == 2:
+                sub = x["args"][1]
+            if sub is None:
+                continue
+            srcs11 = [sub]
+            # a local used in the subscript stands for its initialiser (const meshindex_t offs = std::min(n,_lastbunch)*rows; ... table[offs+x])
+            for y in A.walk(sub):
+                if y.get("k") == "DeclRefExpr" and y.get("local"):
+                    for st_ in A.walk(fq["body"]):
+                        if st_.get("k") == "DeclStmt":
+                            for d_ in st_.get("decls", []):
+                                if d_.get("decl") == y.get("decl") and isinstance(d_.get("init"), dict):
+                                    srcs11.append(d_["init"])
+            for src_ in srcs11:
+                for y in A.walk(src_):
+                    if y.get("k") == "MemberExpr" and A.this_field(y) and (y.get("ctype") or "").replace("const ", "").strip() in SC11:
+                        owner = (y.get("member") or {}).get("qname", "").rsplit("::", 1)[0]
+                        idx_fields.setdefault((owner, A.this_field(y)), fq["qname"])
+    n11 = 0
+    for (owner, fld), user in sorted(idx_fields.items()):
+        if owner not in prog.records:
+            continue
+        for c11 in prog.functions.values():
+            if c11.get("class") != owner or c11.get("kind") != "ctor" or c11.get("copy_ctor") or c11.get("move_ctor"):
+                continue
+            inits11 = c11.get("inits", [])
+            if any(i_.get("ikind") == "delegating" for i_ in inits11) or (not c11.get("body") and not inits11):
+                continue
+            ok11 = any(i_.get("ikind") == "member" and i_.get("target") == fld for i_ in inits11)
+            how = "initialiser list"
+            if not ok11 and c11.get("body"):
+                g11 = Fl11.CFG(c11)
+                assigns = lambda n_, f_=fld: n_.get("k") in ("BinaryOperator",) and n_.get("op") == "=" and A.this_field(n_["c"][0]) == f_
+                mn11, mx11 = g11.count_on_paths(assigns)
+                ok11 = mn11 is not None and mn11 >= 1
+                how = "assignment on every path of the body"
+            n11 += 1
+            chk.check(ok11, "R11", c11.where, "%s::%s (an index in %s) is given a value by this constructor (%s)" % (owner.replace("vfps::", ""), fld, user.replace("vfps::", ""),
+                      how if ok11 else "NOT initialised: its first use reads an indeterminate value"),
+                      "index-member-uninitialised:%s::%s" % (owner.replace("vfps::", ""), fld))
+    chk.floor("R11-index-members-x-constructors", n11, 3)
     chk.notes.append("C17: %d bounds obligations on the work arrays (symbolic max index vs. allocation extent), stream-extraction discipline, definite assignment "
                      "of scalar locals over all functions, foreign-container subscripts, guarded integer division. NOT decided: UB-freedom in general, libraries." % n1)
